@@ -223,7 +223,9 @@ impl WriteSource for pr::ExprKind {
                 }
 
                 // try a single line
-                if let Some(body) = c.body.write(opt.clone()) {
+                // (a function as the body of a function needs parentheses)
+                opt.binary_position = super::Position::Unspecified;
+                if let Some(body) = write_within(c.body.as_ref(), self, opt.clone()) {
                     r += &body;
                 } else {
                     r += &break_line_within_parenthesis(c.body.as_ref(), opt)?;
@@ -520,7 +522,10 @@ fn display_interpolation(
 }
 
 impl WriteSource for pr::SwitchCase {
-    fn write(&self, opt: WriteOpt) -> Option<String> {
+    fn write(&self, mut opt: WriteOpt) -> Option<String> {
+        // a function on either side of `=>` needs parentheses
+        opt.context_strength = opt.context_strength.max(8);
+
         let mut r = String::new();
         r += &self.condition.write(opt.clone())?;
         r += " => ";
